@@ -104,8 +104,19 @@ func (v *Version) Compare(other *Version) int {
 }
 
 func compareElements(e1, e2 element) int {
-	// If both are numbers, compare numerically
-	if e1.isNumber && e2.isNumber {
+	// Every element has one place in a single linear order, so that Compare is transitive:
+	// known qualifiers by qualifierOrder (a number 0 counts as the release, like a missing
+	// element), then unknown qualifiers alphabetically, then positive numbers numerically.
+	r1, r2 := elementRank(e1), elementRank(e2)
+	if r1 != r2 {
+		if r1 < r2 {
+			return -1
+		}
+		return 1
+	}
+
+	switch r1 {
+	case numberRank:
 		n1 := e1.value.(int)
 		n2 := e2.value.(int)
 		if n1 < n2 {
@@ -114,73 +125,35 @@ func compareElements(e1, e2 element) int {
 		if n1 > n2 {
 			return 1
 		}
-		return 0
-	}
-
-	// If one is number and other is string, number comes first (unless string is empty/release)
-	if e1.isNumber && !e2.isNumber {
-		s2 := e2.value.(string)
-		if s2 == "" {
-			// number vs empty string: empty string (release) is greater
-			return -1
-		}
-		if s2 == "sp" {
-			// number vs sp: sp is greater
-			return -1
-		}
-		// number vs other qualifier: number is greater
-		return 1
-	}
-
-	if !e1.isNumber && e2.isNumber {
+	case unknownRank:
 		s1 := e1.value.(string)
-		if s1 == "" {
-			// empty string (release) vs number: empty string is greater
-			return 1
-		}
-		if s1 == "sp" {
-			// sp vs number: sp is greater
-			return 1
-		}
-		// other qualifier vs number: number is greater
-		return -1
-	}
-
-	// Both are strings - compare by qualifier order
-	s1 := e1.value.(string)
-	s2 := e2.value.(string)
-
-	order1, exists1 := qualifierOrder[s1]
-	order2, exists2 := qualifierOrder[s2]
-
-	// Unknown qualifiers come after known qualifiers
-	if !exists1 && !exists2 {
-		// Both unknown - lexicographic comparison
+		s2 := e2.value.(string)
 		if s1 < s2 {
 			return -1
 		}
 		if s1 > s2 {
 			return 1
 		}
-		return 0
-	}
-
-	if !exists1 {
-		return 1 // unknown qualifier comes after known
-	}
-
-	if !exists2 {
-		return -1 // known qualifier comes before unknown
-	}
-
-	// Both are known qualifiers
-	if order1 < order2 {
-		return -1
-	}
-	if order1 > order2 {
-		return 1
 	}
 	return 0
+}
+
+const (
+	unknownRank = 8 // any qualifier not in qualifierOrder sorts after sp
+	numberRank  = 9 // positive numbers sort after every qualifier
+)
+
+func elementRank(e element) int {
+	if e.isNumber {
+		if e.value.(int) <= 0 {
+			return qualifierOrder[""]
+		}
+		return numberRank
+	}
+	if order, ok := qualifierOrder[e.value.(string)]; ok {
+		return order
+	}
+	return unknownRank
 }
 
 func (v *Version) String() string {
